@@ -183,6 +183,23 @@ def make_fakes():
     dask.array = da
     dask.delayed = symda.delayed
     dask.compute = symda.compute
+
+    def _tokenize(*args, **kw):
+        # dask.base.tokenize is deterministic in the *content* of its arguments; the shim only sees shape / chunks / dtype of arrays, so distinct
+        # arrays of equal geometry share a token here (an over-approximation: it can only add graph-key collisions, which the replay then refutes)
+        parts = []
+        for a in args:
+            if isinstance(a, symda.Array):
+                parts.append('arr%r%r' % (tuple(a.shape), a.chunks))
+            elif isinstance(a, symnp.SymArray):
+                parts.append('nd%r' % (tuple(a.shape),))
+            else:
+                parts.append(repr(a)[:40])
+        import hashlib as _h
+        return _h.md5('|'.join(parts).encode()).hexdigest()
+    dask.base = types.SimpleNamespace(tokenize=_tokenize)
+    dask.tokenize = _tokenize
+    symda.tokenize = _tokenize
     dd = types.ModuleType('dask.dataframe')
     dd.concat = minipd.concat
     dd.from_dask_array = minipd.from_dask_array
